@@ -35,6 +35,21 @@ CLAIMED = {
    design_ref="DESIGN.md section 6 C11, section 13",
    note="polar-specialised add/subtract/scale are reached because intermediate results stay in the system the code returned",
    technique="TLA+ state machine of call programs (Laws.tla), TLC invariant LawHolds, behaviours replayed into the code; TLAPS/Z3 for the polynomial laws"),
+ "C05": dict(category="model_checking",
+   text="spec/Types.tla states the rules (priority object < NumPy < Awkward with array-vs-record shape, flavor, dimension, TypeError cases, operators as methods) as Required(method, descriptor, descriptor); TLC enumerates the whole finite lattice of 69 public methods/operators x (4 backends x 2 flavors x 3 dimensions)^2 and checks the rule invariants; every state is executed on small containers and the result's container, flavor, dimension compared with Required; the result coordinate system must be a function of (method, operand systems) across all descriptors (learned table). Thorough executes every coordinate-system pairing for every descriptor.",
+   design_ref="DESIGN.md section 6 C05, section 13",
+   note="values are two fixed well-conditioned points; unregistered Awkward mode",
+   technique="TLA+ rule table (Types.tla) enumerated exhaustively by TLC; each state executed against the API; learned functional table for result systems"),
+ "C06": dict(category="model_checking",
+   text="spec/Names.tla defines Classify(S) for a set of names; TLC enumerates all 16 664 subsets of at most 5 of the 19 names with the invariants SizeMatches, SynonymInvariant, TemporalNeedsLongitudinal; every set is passed with pairwise distinct values to vector.obj, the six object classes, vector.array, vector.zip and vector.Array and the outcome (TypeError / dimension / system / flavor / stored values) compared with Classify; the value-type clause is executed on 7 documented sets x 11 value types.",
+   design_ref="DESIGN.md section 6 C06",
+   note="exhaustive over the stated lattice in both tiers",
+   technique="TLA+ classification (Names.tla) enumerated exhaustively by TLC; every state executed against all ten constructors"),
+ "C14": dict(category="model_checking",
+   text="spec/Synonyms.tla is the synonym table (getters, setters, 20 conversions, momentum/generic twins) x 20 systems x 5 backends; TLC enumerates it exhaustively and checks it is functional and closed; each use of a synonym is executed next to the same use of the geometric name (read, assign, NumPy field access and item assignment, conversion with and without keyword spellings, construction) and must be bit-identical.",
+   design_ref="DESIGN.md section 6 C14",
+   note="bit-for-bit comparison needs no numeric oracle",
+   technique="TLA+ synonym table (Synonyms.tla) enumerated exhaustively by TLC; paired execution synonym vs geometric name, bit-for-bit"),
 }
 
 def entry(pid, c):
